@@ -118,9 +118,9 @@ theorem mem_opEvents {evs : List Event} {op : OperationDef} :
   · rintro ⟨e, he, u, h⟩
     exact ⟨e, he, by simp [opOf, h]⟩
 
-theorem mem_fragEvents {evs : List Event} {f : FragmentDef} :
-    f ∈ fragEvents evs ↔ ∃ e ∈ evs, ∃ dfn, e.p = .fragment f dfn := by
-  simp only [fragEvents, List.mem_filterMap]
+theorem mem_fragDefEvents {evs : List Event} {f : FragmentDef} :
+    f ∈ fragDefEvents evs ↔ ∃ e ∈ evs, ∃ dfn, e.p = .fragment f dfn := by
+  simp only [fragDefEvents, List.mem_filterMap]
   constructor
   · rintro ⟨e, he, h⟩
     refine ⟨e, he, ?_⟩
